@@ -17,8 +17,11 @@ import (
 	v1 "k8s.io/api/core/v1"
 	apiequality "k8s.io/apimachinery/pkg/api/equality"
 	metav1 "k8s.io/apimachinery/pkg/apis/meta/v1"
+	"k8s.io/apimachinery/pkg/runtime"
+	"k8s.io/apimachinery/pkg/types"
 	"k8s.io/apimachinery/pkg/util/sets"
 	kubefake "k8s.io/client-go/kubernetes/fake"
+	clienttesting "k8s.io/client-go/testing"
 
 	"verif/internal/explore"
 	"verif/internal/gen"
@@ -114,7 +117,7 @@ func init() {
 		rep.Extra["builtin_only_paths"] = unmodelled
 		rep.Extra["advanced_only_paths"] = extraInAdv
 		rep.Extra["single_field_mutations"] = len(muts)
-		rep.Rule = fmt.Sprintf("bounded-exhaustive objects from a reflective generator over k8s.io/api/apps/v1.StatefulSet (depth %d): a populated base object with every reachable path set, one at a time, to each variant (leaf: two typical values and zero; pointer: nil / pointer to zero / populated; slice: nil / empty / 1 / 3 items; map: nil / empty / one entry), all pairs of mutations among the set-level fields (metadata.*, spec.*, status.* first level), and the same on an empty base object; slot sets = all subsets of {MinInt32,-1,0,1,2,MaxInt32}; annotation maps {nil, {}, other keys, pre-existing slots/pause}. Oracles: To(From(x)) semantically equals x with the built-in-only paths (computed by reflection) zeroed, apiVersion apps/v1, no error; list conversion keeps length and order; write/read through the hijack client on a fake keeps every value the input had; Set.Get = id, Add = union, empty removes the key, other annotations untouched, same for pause; edit histories through the hijack client (create with slots S1/pause P1, read, update to S2/P2 for all S1,S2 subsets of {0,1,2}: the update result, a fresh read and the stored Advanced object all say S2/P2 and an emptied slot set leaves no annotation); D(D(o)) = D(o) and re-submitting a read-back object leaves the template unchanged. Non-trivial = the mutated object differs from the base.", depth)
+		rep.Rule = fmt.Sprintf("bounded-exhaustive objects from a reflective generator over k8s.io/api/apps/v1.StatefulSet (depth %d): a populated base object with every reachable path set, one at a time, to each variant (leaf: two typical values and zero; pointer: nil / pointer to zero / populated; slice: nil / empty / 1 / 3 items; map: nil / empty / one entry), all pairs of mutations among the set-level fields (metadata.*, spec.*, status.* first level), and the same on an empty base object; slot sets = all subsets of {MinInt32,-1,0,1,2,MaxInt32}; annotation maps {nil, {}, other keys, pre-existing slots/pause}. Oracles: To(From(x)) semantically equals x with the built-in-only paths (computed by reflection) zeroed, apiVersion apps/v1, no error; list conversion keeps length and order; write/read through the hijack client on a fake keeps every value the input had; Set.Get = id, Add = union, empty removes the key, other annotations untouched, same for pause; edit histories through the hijack client (create with slots S1/pause P1, read, update to S2/P2 for all S1,S2 subsets of {0,1,2}: the update result, a fresh read and the stored Advanced object all say S2/P2 and an emptied slot set leaves no annotation); List through the client over an underlying list served in a fixed non-sorted order (length, order, list resourceVersion/continue, item types and content), UpdateStatus (every status field, slots untouched) and Patch (result equals the stored object); D(D(o)) = D(o) and re-submitting a read-back object leaves the template unchanged. Non-trivial = the mutated object differs from the base.", depth)
 		rep.Assumptions = []string{"fields the Advanced API models = JSON paths present in both Go types (computed by reflection over struct tags)", "timestamps are generated at second granularity (the API's own)", "the hijack client is exercised on client-go's stock fake object tracker"}
 		ctx := context.TODO()
 		var n int64
@@ -430,6 +433,109 @@ func init() {
 						pc.ClearActions()
 					}
 				}
+			}
+		}
+		// the other verbs of the hijack client: List (length, order, list metadata, item types), UpdateStatus, Patch
+		{
+			pc2 := pcfake.NewSimpleClientset()
+			hc2 := helper.NewHijackClient(kubefake.NewSimpleClientset(), pc2)
+			var served *asv1.StatefulSetList
+			pc2.PrependReactor("list", "statefulsets", func(clienttesting.Action) (bool, runtime.Object, error) { return true, served.DeepCopy(), nil })
+			names := []string{"set-b", "set-a", "set-c", "set-a2"}
+			for ln := 0; ln <= len(names); ln++ {
+				for rot := 0; rot < 2; rot++ {
+					n++
+					served = &asv1.StatefulSetList{ListMeta: metav1.ListMeta{ResourceVersion: "42", Continue: "tok"}}
+					var want []*appsv1.StatefulSet
+					for i := 0; i < ln; i++ {
+						x := c19Base()
+						x.Name = names[(i+rot*2)%len(names)]
+						x.ResourceVersion = fmt.Sprint(10 + i)
+						helper.SetDeleteSlots(x, sets.NewInt32(int32(i)))
+						a, _ := helper.FromBuiltinStatefulSet(x)
+						served.Items = append(served.Items, *a)
+						want = append(want, x)
+					}
+					label := fmt.Sprintf("hijack client List of %d items (rotation %d)", ln, rot)
+					got, err := hc2.AppsV1().StatefulSets("default").List(ctx, metav1.ListOptions{})
+					h := sha256.Sum256([]byte(label))
+					var k [16]byte
+					copy(k[:], h[:16])
+					rep.Count(k, ln > 0, "")
+					if err != nil || got == nil {
+						rep.Violation("C19", "hijack-list-error", fmt.Sprintf("%s: %v", label, err), nil)
+						continue
+					}
+					if len(got.Items) != ln {
+						rep.Violation("C19", "list-length", fmt.Sprintf("%s: %d items returned", label, len(got.Items)), nil)
+						continue
+					}
+					if got.ResourceVersion != "42" || got.Continue != "tok" {
+						rep.Violation("C19", "list-metadata-lost", fmt.Sprintf("%s: list metadata resourceVersion=%q continue=%q, the underlying list said 42 / tok", label, got.ResourceVersion, got.Continue), nil)
+					}
+					for i := range want {
+						if got.Items[i].APIVersion != "apps/v1" {
+							rep.Violation("C19", "api-version", fmt.Sprintf("%s: item %d typed %q", label, i, got.Items[i].APIVersion), nil)
+						}
+						if d := jsonIncluded(toTree(want[i]), toTree(&got.Items[i]), "$"); d != "" {
+							rep.Violation("C19", "list-order-or-content", fmt.Sprintf("%s: item %d differs: %s", label, i, d), nil)
+						}
+					}
+				}
+			}
+			// UpdateStatus and Patch on a stored object
+			pc3 := pcfake.NewSimpleClientset()
+			cli := helper.NewHijackClient(kubefake.NewSimpleClientset(), pc3).AppsV1().StatefulSets("default")
+			for _, ss := range small {
+				n++
+				label := fmt.Sprintf("hijack client UpdateStatus/Patch with slots=%v", ss)
+				h := sha256.Sum256([]byte(label))
+				var k [16]byte
+				copy(k[:], h[:16])
+				rep.Count(k, true, "")
+				x := c19Base()
+				helper.SetDeleteSlots(x, sets.NewInt32(ss...))
+				created, err := cli.Create(ctx, x.DeepCopy(), metav1.CreateOptions{})
+				if err != nil {
+					rep.Violation("C19", "hijack-create-error", label+": "+err.Error(), nil)
+					continue
+				}
+				y := created.DeepCopy()
+				cc := int32(2)
+				y.Status = appsv1.StatefulSetStatus{ObservedGeneration: 4, Replicas: 3, ReadyReplicas: 1, CurrentReplicas: 2, UpdatedReplicas: 1, CurrentRevision: "web-a", UpdateRevision: "web-b", CollisionCount: &cc,
+					Conditions: []appsv1.StatefulSetCondition{{Type: "Custom", Status: v1.ConditionTrue, Reason: "r", Message: "m"}}}
+				us, err := cli.UpdateStatus(ctx, y.DeepCopy(), metav1.UpdateOptions{})
+				if err != nil {
+					rep.Violation("C19", "hijack-update-status-error", label+": "+err.Error(), nil)
+				} else {
+					back, _ := cli.Get(ctx, x.Name, metav1.GetOptions{})
+					for _, o := range []*appsv1.StatefulSet{us, back} {
+						if o == nil || o.APIVersion != "apps/v1" {
+							rep.Violation("C19", "api-version", label+": UpdateStatus result not typed apps/v1", nil)
+							continue
+						}
+						if d := jsonIncluded(toTree(y.Status), toTree(o.Status), "$.status"); d != "" {
+							rep.Violation("C19", "hijack-write-read-lossy", label+": status written through the hijack client and read back lost or changed a value: "+d, nil)
+						}
+						if !eq(helper.GetDeleteSlots(o), ss) {
+							rep.Violation("C19", "hijack-annotations-lossy", fmt.Sprintf("%s: slots read %v after a status write", label, helper.GetDeleteSlots(o).List()), nil)
+						}
+					}
+				}
+				pt, err := cli.Patch(ctx, x.Name, types.MergePatchType, []byte(`{"metadata":{"annotations":{"patched":"yes"}}}`), metav1.PatchOptions{})
+				if err != nil {
+					rep.Violation("C19", "hijack-patch-error", label+": "+err.Error(), nil)
+				} else {
+					stored, _ := pc3.AppsV1().StatefulSets("default").Get(ctx, x.Name, metav1.GetOptions{})
+					wantB, _ := helper.ToBuiltinStatefulSet(stored)
+					if pt.APIVersion != "apps/v1" || pt.Annotations["patched"] != "yes" || !eq(helper.GetDeleteSlots(pt), ss) {
+						rep.Violation("C19", "hijack-patch-lossy", fmt.Sprintf("%s: patch result typed %q annotations %v", label, pt.APIVersion, pt.Annotations), nil)
+					}
+					if d := jsonIncluded(toTree(wantB), toTree(pt), "$"); d != "" {
+						rep.Violation("C19", "hijack-patch-lossy", label+": patch result differs from the stored object: "+d, nil)
+					}
+				}
+				pc3.AppsV1().StatefulSets("default").Delete(ctx, x.Name, metav1.DeleteOptions{})
 			}
 		}
 		rep.AddStates(n, n)
